@@ -53,6 +53,13 @@ CLAIMED = {
              "depth) + list_is_conjunction + lookup_first_match. Tied to the code by exhaustive expression shapes x truth tables, "
              "all 16 spellings, both selectors, live comparison of the operator table, and an independent recursive evaluator.",
         design="§7 C06", technique="Lean 4 proof (mutual structural induction, decide) + correspondence check"),
+    "C08": dict(
+        text="precedence / first_context / no_context (first context calibrator whose criteria hold, else default, else raw), "
+             "calibrated_is_float (class float, raw kept), polynomial (= sum a_i x^n_i over Rat), spline_interior / spline_knot / "
+             "spline_last_point / spline_extrapolate / spline_out_of_range (step and linear interpolation on the closed range of "
+             "strictly sorted points, extrapolation only when enabled, CalibrationError otherwise), enumerated, boolean. "
+             "Arithmetic is exact Rat; the correspondence runs in the exact-arithmetic regime with a Fraction-based reference.",
+        design="§7 C08", technique="Lean 4 proof (list induction, grind over Rat) + correspondence check"),
 }
 
 NOT_YET = "check not built yet (work in progress; see DESIGN.md §11 build order)"
